@@ -711,7 +711,11 @@ func main() {
 			// a hand-over (T0 releases x, T1 is waiting for it) while T2 uses key y for the first time
 			scs = append(scs, crowded(rw, false, crowd, [][]acq{{{"L", 0}}, {{"L", 0}}, {{"L", 1}, {"TL", 0}}}, ev.Pick(r, 1, 2), -2))
 			if rw {
-				scs = append(scs, crowded(rw, false, crowd, [][]acq{{{"RL", 0}}, {{"L", 1}, {"TRL", 0}, {"TL", 0}}}, ev.Pick(r, 2, 3), -2))
+				rb := ev.Pick(r, 2, 3)
+				if crowd > 1022 {
+					rb = ev.Pick(r, 1, 2) // (the set-up of 4096 keys runs under the scheduler in every execution)
+				}
+				scs = append(scs, crowded(rw, false, crowd, [][]acq{{{"RL", 0}}, {{"L", 1}, {"TRL", 0}, {"TL", 0}}}, rb, -2))
 			}
 		}
 		// a key that has been used 2^8 / 2^16 times (and one less, one more) before two threads contend for it
